@@ -119,3 +119,15 @@ claim("C15", "proof",
       "high-water bookkeeping and the interval slots are covered by the oracle only; harness.",
       "Coq proof (pointwise frame reasoning over tapes and histories) + fresh-vs-long-lived differential oracle",
       "DESIGN.md section 6, C15")
+
+claim("C19", "proof",
+      "Coq theorems: the descending-dimension search of solveBounded returns a position inside the box whenever the corner "
+      "candidates have comparable errors (bounds merely ordered), returns a pinned candidate when a face candidate is "
+      "comparable, with a refutation showing the comparability premise is necessary; over the reals the QEF error is a "
+      "sum of squared residuals (>= 0) for every sample list and accumulation is permutation-invariant (matrices equal).  "
+      "Tie: for every generated sample set / box the 3^N candidates produced by the implementation's solveConstrained<i> "
+      "are fed to the extracted search model, which must select the candidate solveBounded returns, bit for bit.  Oracle: "
+      "in-box, on-face, error >= 0 and == QEF::error(position, value), unconstrained optimum kept, order independence.",
+      "Trusted: Coq kernel; Eigen's SelfAdjointEigenSolver (the constrained solve is an oracle of the model); extraction; harness.",
+      "Coq proof (search invariants; bilinear algebra over lists) + candidate-replay correspondence",
+      "DESIGN.md section 6, C19")
